@@ -553,15 +553,16 @@ def _parse_config_params(toml):
             f"invalid phase assemblage: {_params['phase_assemblage']}"
         ) from None
 
-    # Make sure initial olivine fabric is valid.
-    try:
-        _params["initial_olivine_fabric"] = getattr(
-            _core.MineralFabric, "olivine_" + _params["initial_olivine_fabric"]
-        )
-    except AttributeError:
-        raise _err.ConfigError(
-            f"invalid initial olivine fabric: {_params['initial_olivine_fabric']}"
-        ) from None
+    # Make sure initial olivine fabric is valid (the default is already a member).
+    if not isinstance(_params["initial_olivine_fabric"], _core.MineralFabric):
+        try:
+            _params["initial_olivine_fabric"] = getattr(
+                _core.MineralFabric, "olivine_" + _params["initial_olivine_fabric"]
+            )
+        except (AttributeError, TypeError):
+            raise _err.ConfigError(
+                f"invalid initial olivine fabric: {_params['initial_olivine_fabric']}"
+            ) from None
 
     # Make sure we have enough unified dislocation creep law coefficients.
     n_provided = len(_params["disl_coefficients"])
